@@ -129,7 +129,7 @@ theorem Post.ok (S : Spec P c) {a : Air σ} {res : Pdu} (hq : S.Q a) (hg : S.G r
 theorem comm_protocol : SErr .protocol := Or.inl rfl
 theorem comm_timeout : SErr .timeout := Or.inl rfl
 
-theorem reqRetrans_spec (S : Spec P c) (pni : Nat) : ∀ n a, S.Q a → Post S (reqRetrans P c pni n a)
+theorem reqRetrans_spec (S : Spec P c) (pni : Nat) (ch : Bool) : ∀ n a, S.Q a → Post S (reqRetrans P c pni ch n a)
   | 0, a, h => by unfold reqRetrans; exact Post.err S h comm_protocol
   | n+1, a, h => by
     unfold reqRetrans
@@ -143,7 +143,7 @@ theorem reqRetrans_spec (S : Spec P c) (pni : Nat) : ∀ n a, S.Q a → Post S (
       | error e =>
         have := he e rfl
         simp only [this, if_true]
-        exact reqRetrans_spec S pni n _ hq
+        exact reqRetrans_spec S pni ch n _ hq
       | ok p =>
         have hg := (hk p rfl).1
         have hkind := (hk p rfl).2
@@ -195,8 +195,8 @@ theorem sendDepLoop_spec (S : Spec P c) (pni : Nat) (req : Pdu) (hR : S.R req) (
           | error e2 => exact Post.err S ha.1 (ha.2 e2 rfl)
         · -- transmission
           dsimp only
-          have ha := reqRetrans_spec S pni 2 a1 hq
-          generalize reqRetrans P c pni 2 a1 = r2 at ha ⊢
+          have ha := reqRetrans_spec S pni _ 2 a1 hq
+          generalize reqRetrans P c pni _ 2 a1 = r2 at ha ⊢
           obtain ⟨a2, u⟩ := r2
           cases u with
           | ok res => exact nakCheck_post S ha.1 (ha.2.2 res rfl).1 (ha.2.2 res rfl).2
